@@ -92,7 +92,7 @@ type stmt struct {
 }
 
 type entry struct {
-	kind    string // d | f
+	kind    string // d | f | l (symbolic link, content = target string)
 	path    string // relative to the sandbox root
 	content string
 }
@@ -511,6 +511,11 @@ func snapshot(root string) (string, string) {
 			} else {
 				es = append(es, ent{"f", rel, hashOf(data)})
 			}
+		case d.Type()&fs.ModeSymlink != 0:
+			// a symbolic link is an entry of its own (a file whose content is the target string); what it points to
+			// is in the snapshot under its own path: removing a link must never touch its target
+			t, _ := os.Readlink(p)
+			es = append(es, ent{"f", rel, hashOf([]byte("-> " + t))})
 		default:
 			es = append(es, ent{"o", rel, "-"})
 		}
@@ -553,11 +558,20 @@ func (tc *tcase) materialise() string {
 		if !strings.HasPrefix(p, root+"/") {
 			continue
 		}
-		if e.kind == "d" {
+		switch e.kind {
+		case "d":
 			must(os.MkdirAll(p, 0o755))
-		} else {
+		case "l":
+		default:
 			must(os.MkdirAll(filepath.Dir(p), 0o755))
 			must(os.WriteFile(p, []byte(e.content), 0o644))
+		}
+	}
+	for _, e := range tc.tree {
+		p := filepath.Join(root, e.path)
+		if e.kind == "l" && strings.HasPrefix(p, root+"/") {
+			must(os.MkdirAll(filepath.Dir(p), 0o755))
+			must(os.Symlink(e.content, p))
 		}
 	}
 	must(os.MkdirAll(filepath.Join(root, tc.cwd), 0o755))
@@ -813,6 +827,15 @@ var treePool = []entry{
 
 var fullTree = treePool
 
+// symbolic links that may be declared as outputs
+var linkPool = []struct {
+	name, target string
+	dir          bool
+}{
+	{"latest", "../sib", true}, {"cur.o", "top.o", false}, {"ext.o", "../sib/s.txt", false}, {"dangling", "nowhere", false},
+	{"sublnk", "sub/deep", true}, {"up", "..", true}, {"self", ".", true}, {"abs.o", "/etc/hostname", false},
+}
+
 func (g *gen) tree() []entry {
 	var t []entry
 	p := 0.35 + 0.6*g.rng.Float64()
@@ -961,6 +984,42 @@ func (g *gen) c12Random() *tcase {
 			}
 		}
 	}
+	// outputs that are symbolic links (to a file, to a directory, dangling; inside and outside the project): --clean
+	// removes the link, never what it points to.  Directory links only when no output glob could walk through them.
+	if g.chance(0.3) {
+		hasGlob := false
+		for _, s := range tc.stmts {
+			if s.isTask && len(s.t.globs) > 0 {
+				hasGlob = true
+			}
+		}
+		ti := g.taskIndex(tc)
+		for k := 1 + g.rng.Intn(2); k > 0; k-- {
+			l := linkPool[g.rng.Intn(len(linkPool))]
+			if l.dir && hasGlob {
+				continue
+			}
+			dup := false
+			for _, e := range tc.tree {
+				if e.path == projRel+"/"+l.name {
+					dup = true
+				}
+			}
+			if dup {
+				continue
+			}
+			tc.tree = append(tc.tree, entry{"l", projRel + "/" + l.name, l.target})
+			if g.chance(0.7) {
+				tc.stmts[ti].t.files = append(tc.stmts[ti].t.files, l.name)
+			} else {
+				// as a named output, by absolute path
+				nm := "LNK" + string(rune(64+k))
+				tc.stmts = append([]stmt{{d: decl{name: nm, kind: "S", args: []string{"/S/" + projRel + "/" + l.name}}}}, tc.stmts...)
+				ti++
+				tc.stmts[ti].t.named = append(tc.stmts[ti].t.named, nm)
+			}
+		}
+	}
 	if g.chance(0.2) {
 		t := task{name: "clean", cmds: []command{echoCmd(cleanMarker)}}
 		if g.chance(0.5) {
@@ -1034,6 +1093,15 @@ func c12Singles() []*tcase {
 	for _, l := range notdirPool {
 		tc := mk(task{files: []string{l, "top.o"}})
 		out = append(out, tc)
+	}
+	// every link of the pool as the only extra output, literal and named
+	for _, l := range linkPool {
+		tc := mk(task{files: []string{l.name, "top.o"}})
+		tc.tree = append(tc.tree, entry{"l", projRel + "/" + l.name, l.target})
+		out = append(out, tc)
+		tc2 := mk(task{named: []string{"OUT"}}, decl{name: "OUT", kind: "S", args: []string{"/S/" + projRel + "/" + l.name}})
+		tc2.tree = append(tc2.tree, entry{"l", projRel + "/" + l.name, l.target})
+		out = append(out, tc2)
 	}
 	return out
 }
